@@ -574,7 +574,7 @@ def section(ctx):
     ctx.fp('utils.flat_to_nested', ffn)
     ctx.fp('utils.guess_type', gfn)
     ctx.fp('__main__.main', ctx.find_func(main_tree, 'main'))
-    repo = F.Repo(ctx.REPO)
+    repo = F.shared_repo(ctx.REPO)
     # ---- parse loop
     try:
         p = parse_loop(repo)
